@@ -47,6 +47,8 @@ TIES = {
             "functions": ["ziputil.inDir", "dock.inDir"]},
     "C18": {"area": "Obj", "refine": "CodeRefine", "cands": "CodeCands",
             "functions": ["objects.isValidKey"]},
+    "C20": {"area": "Aries", "refine": "CodeRefine", "cands": "CodeCands",
+            "functions": ["aries.route.size", "aries.route.relRoute", "aries.C.ShiftRoute"]},
 }
 
 
